@@ -144,6 +144,11 @@ func alphabet264() []sym {
 		{"STAP(SPS,PPS,IDR)", func(s uint16, ts uint32, t byte) []*rtp.Packet {
 			return []*rtp.Packet{v(s, ts, rtppack.H264StapA([][]byte{sps(t), pps(t), idr(t)}))}
 		}},
+		// an aggregation packet whose first unit is longer than 255 bytes (size field with a non-zero
+		// high byte) followed by the key picture (seed C02-r5-m2)
+		{"STAP(SEI300,IDR)", func(s uint16, ts uint32, t byte) []*rtp.Packet {
+			return []*rtp.Packet{v(s, ts, rtppack.H264StapA([][]byte{hx.NAL(0, 6, 300, t), idr(t)}))}
+		}},
 		{"FU(IDR)x3", func(s uint16, ts uint32, t byte) []*rtp.Packet {
 			var out []*rtp.Packet
 			for i, f := range rtppack.H264FuA(idr(t), 3) {
@@ -183,6 +188,9 @@ func alphabet265() []sym {
 		{"VPS", one(vps)}, {"SPS", one(sps)}, {"PPS", one(pps)}, {"IDR", one(idr)}, {"CRA", one(cra)}, {"P", one(pfr)},
 		{"AP(VPS,SPS,PPS)", func(s uint16, ts uint32, t byte) []*rtp.Packet {
 			return []*rtp.Packet{v(s, ts, rtppack.H265AP([][]byte{vps(t), sps(t), pps(t)}))}
+		}},
+		{"AP(SEI300,IDR)", func(s uint16, ts uint32, t byte) []*rtp.Packet {
+			return []*rtp.Packet{v(s, ts, rtppack.H265AP([][]byte{hx.NAL265(39, 0, 1, 300, t), idr(t)}))}
 		}},
 		{"FU(IDR)x3", func(s uint16, ts uint32, t byte) []*rtp.Packet {
 			var out []*rtp.Packet
